@@ -12,7 +12,7 @@ Local Open Scope string_scope.
 
 (* The Section variables of the generated file are instantiated by position below; these lines pin
    their names, so a change of callee cannot go unnoticed. *)
-Arguments checkRaftConfiguration error_T strings_Contains net_SplitHostPort fmt_Errorf _ : assert.
+Arguments checkRaftConfiguration error_T fmt_Errorf net_SplitHostPort strings_Contains _ : assert.
 
 Definition gserver (s : server) : raft_Server :=
   mk_raft_Server (if sv_voter s then 0%Z else 1%Z) (sv_id s) (sv_addr s).
@@ -25,6 +25,12 @@ Proof.
   rewrite (String.eqb_sym x y). destruct (String.eqb y x); cbn; [reflexivity|apply IH].
 Qed.
 
+Lemma lookup_set_of_ok : forall l x, isSome (lookup (set_of l) x) = mem_str x l.
+Proof.
+  induction l as [|y l IH]; intros x; cbn; [reflexivity|].
+  rewrite (String.eqb_sym x y). destruct (String.eqb y x); cbn; [reflexivity|apply IH].
+Qed.
+
 Section Check.
   Variable E : Type.
   Variable e : E.
@@ -32,7 +38,7 @@ Section Check.
   Definition contains (s sub : string) : bool := has_sub sub s.
   Definition split (a : string) : string * string * option E :=
     ("", "", if split_host_port_ok a then None else Some e).
-  Definition gen_check (l : list server) : option E := checkRaftConfiguration E contains split errorf (gconf l).
+  Definition gen_check (l : list server) : option E := checkRaftConfiguration E errorf split contains (gconf l).
 
   Lemma gen_checkRaftConfiguration_eq : forall l, isSome (gen_check l) = negb (check_configuration l).
   Proof.
@@ -45,7 +51,7 @@ Section Check.
     clear l. induction l as [|s l IH]; intros voters addrs ids; unfold LOOP; cbn [map check_servers]; fold LOOP.
     - destruct voters; reflexivity.
     - cbn [gserver raft_Server_ID raft_Server_Address raft_Server_Suffrage].
-      unfold contains, split at 1. rewrite !lookup_set_of.
+      unfold contains, split at 1. rewrite ?lookup_set_of, ?lookup_set_of_ok.
       change (update (set_of ids) (sv_id s) true) with (set_of (sv_id s :: ids)).
       change (update (set_of addrs) (sv_addr s) true) with (set_of (sv_addr s :: addrs)).
       unfold raft_Voter.
